@@ -63,3 +63,21 @@ def protein_graph(g):
 def protein_op(g, rg, out="out.itp", **json_kw):
     return {"op": "gen_params", "name": "PROT", "files": [], "lib": ["martini3"],
             "graph": {"kind": "json", "text": ffgen.graph_json(rg, **json_kw)}, "out": out, "resgraph": rg}
+
+
+LIB_BLOCKS = {"martini3": ["PEO", "PS", "PMMA", "PE", "P3HT", "PMA", "PSS", "PVA"], "martini2": ["PEO", "PS", "PE", "PP"],
+              "2016H66": ["PMMA", "PEO", "PE", "PVA"], "gromos53A6": ["P3HT"], "oplsaaLigParGen": ["PEO"]}
+
+
+def lib_mixed_op(g, base, out="h.itp"):
+    """earlier call over the SAME library and molecule name whose sequence mixes the base's block with another one"""
+    lib = base["lib"][0]
+    b0 = base["graph"]["seq"][0].split(":")[0]
+    others = [b for b in LIB_BLOCKS.get(lib, []) if b != b0]
+    if not others:
+        return None
+    seq = [f"{b0}:2", f"{g.choice(others)}:2"]
+    if g.random() < 0.5:
+        seq.reverse()
+    return {"op": "gen_params", "name": base["name"], "files": [], "lib": [lib], "graph": {"kind": "seq", "seq": seq},
+            "out": out, "resgraph": None}
